@@ -382,6 +382,33 @@ GROUP_OPS = ['new_variable', 'new_block', 'new_combinations', 'new_permutations'
              'new_binary_mapping', 'new_sparse_mapping', 'new_graph_edges', 'new_digraph_edges', 'new_bipartite_edges']
 
 
+def _group_size(kind, a):
+    """number of variables of a group, from the definition of its index set"""
+    from math import perm
+    if kind == 'new_variable':
+        return 1
+    if kind == 'new_block':
+        r = 1
+        for d in a[0]:
+            r *= d
+        return r
+    if kind == 'new_combinations':
+        return comb(a[0], a[1])
+    if kind == 'new_permutations':
+        return perm(a[0], a[1]) if a[1] <= a[0] else 0
+    if kind == 'new_words':
+        return a[0] ** a[1]
+    if kind == 'new_mapping':
+        return a[0] * a[1]
+    if kind == 'new_binary_mapping':
+        return a[0] * bits(a[1])
+    if kind in ('new_sparse_mapping', 'new_bipartite_edges'):
+        return len(a[2])
+    if kind in ('new_graph_edges', 'new_digraph_edges'):
+        return len(a[1])
+    return None
+
+
 def run_history(case):
     from cnfgen.formula.cnf import CNF
     from cnfgen.formula.opb import OPB
@@ -511,6 +538,9 @@ def run_history(case):
         if kind.startswith('new_'):
             if g is not None:
                 ids = list(g)
+            exp = _group_size(kind, a)
+            if exp is not None and len(ids) != exp:
+                raise Violation("{}: the group has {} variables, its definition gives {}".format(what, len(ids), exp))
             if ids:
                 if ids != list(range(ids[0], ids[0] + len(ids))):
                     raise Violation("{}: identifiers {} are not contiguous".format(what, ids[:10]))
